@@ -350,6 +350,41 @@ impl C02Monitor {
         issues
     }
 
+    /// Clause (ii) at queue quiescence: whatever made an issuer's certificate
+    /// shrink has been processed together with everything it triggered, but
+    /// no child has been asked to call in yet - a published child
+    /// certificate must not exceed the certificate the issuer holds for the
+    /// issuing key ("without waiting for the child"). This also sees an
+    /// issuer that did not publish anything at all after its certificate
+    /// shrank, which the per-publication monitor cannot.
+    fn check_quiescent_containment(
+        &self, w: &World, r: &mut Report
+    ) -> Vec<Issue> {
+        let mut issues = vec![];
+        for issuer in w.ca_handles() {
+            if issuer == "ta" { continue }
+            let certs = issuer_pub(w, &issuer);
+            if certs.is_empty() { continue }
+            let (held_map, _) = held(w, &issuer);
+            r.eval();
+            r.count("quiescent_containment_checks", 1);
+            for c in &certs {
+                if let Some(hk) = held_map.get(&c.aki) {
+                    if !hk.contains(&c.resources) {
+                        issues.push((
+                            "child-cert-overclaims-issuer-at-quiescence".into(),
+                            format!("the queue is idle and {issuer} still \
+                                     publishes {} with [{}] while it holds only \
+                                     [{}] for the issuing key {}",
+                                    c.uri, c.resources, hk, c.aki),
+                        ));
+                    }
+                }
+            }
+        }
+        issues
+    }
+
     /// Clause (iii): at a caught-up point every child holds exactly what it
     /// is entitled to, per class, and the parent publishes exactly that.
     fn check_converged(&self, w: &World, r: &mut Report) -> Vec<Issue> {
@@ -577,6 +612,13 @@ impl C02Monitor {
                     w.pending(), w.running());
             }
             if !ok { return (false, round, None) }
+            if round == 0 {
+                if let Some(i) = self.check_quiescent_containment(w, r)
+                    .into_iter().next()
+                {
+                    return (false, round, Some(i))
+                }
+            }
             let now = oracle::repo_hash(w);
             if round > 0 && now == last && !oracle::has_open_requests(w) {
                 return (true, round, None)
